@@ -7,6 +7,7 @@ import copy
 import s1
 import tools
 from framework import Issue
+import fam_enter_susp
 from s1 import features  # noqa: F401
 from tools import run_async
 from world import Susp, UserBaseExc, UserExc, asyncstdlib, drive, exc_name
@@ -111,6 +112,10 @@ def cases(tier, rng):
     for case in s1.random_cases(tier, rng, s1.KINDS_ASYNC, 150 if tier == "quick" else 3000, cons_kinds=("exhaust", "close")):
         yield _suspending(case)
     yield from _stack_cases()
+    # cancellation while a manager's `__aenter__` (or an exit, or the block) is suspended: Machines/ExitStackEnter.lean
+    for case in fam_enter_susp.cases(rng, 1200 if tier == "quick" else 15000):
+        if any(op[0] == "x" for op in case["ops"]):
+            yield dict(case, family="entersusp", tool="exitstack")
     # D17 family: the user's aclose() itself suspends and the cancellation lands inside it, in a multi-source cleanup loop
     for tool, params in (("zip", {}), ("zip_longest", {"fill": None}), ("map", {}), ("merge", {})):
         for n in (2, 3):
@@ -120,6 +125,8 @@ def cases(tier, rng):
 
 
 def observe(case):
+    if case.get("family") == "entersusp":
+        return dict(fam_enter_susp.observe(case), n=len(case["ops"]))
     if case.get("family") == "exitstack":
         return {"n": case["n"], "impl": _run_stack(case, False), "nested": _run_stack(case, True), "runs": []}
     base = run_async(case)
@@ -154,6 +161,8 @@ def model_request(case):
 
 def model_requests(case, obs):
     """one model run per cancellation point: the cancellation as a fault at that use"""
+    if case.get("family") == "entersusp":
+        return [fam_enter_susp.model_request(case)]
     if case.get("family") == "exitstack":
         return [_stack_model(case)]
     out = []
@@ -165,6 +174,8 @@ def model_requests(case, obs):
 
 def judge(case, obs, model):
     issues = []
+    if case.get("family") == "entersusp":
+        return fam_enter_susp.judge(case, obs, model[0] if model else None)
     if case.get("family") == "exitstack":
         a, ref = obs["impl"], obs["nested"]
         ran = [i for i, _ in a["log"]]
@@ -213,6 +224,8 @@ def nontrivial(case, obs):
 
 
 def features(case, obs):  # noqa: F811
+    if case.get("family") == "entersusp":
+        return ["tool=exitstack"] + fam_enter_susp.features(case, obs)
     if case.get("family") == "exitstack":
         return ["tool=exitstack", "points=%d" % case["n"]]
     return ["tool=" + case["tool"], "points=%d" % min(obs["n"], 9)] + ["kind=" + s["kind"] for s in case["srcs"]]
